@@ -135,4 +135,11 @@ PROPS = {
         "assumptions": [],
         "level_note": "queueing before the first completion, start of every queued search (in order, by the same function a late search goes through) when the completion is handled, no stream item/stream end before the first handled completion in any run, queue empty ever after: proved for all runs of the node model; that the started search yields what the late search yields is C02/C03 at model level and the [C16] oracle (every search of a truthful static network yields the stored peer) on the real node. Finding F16 demonstrated by the node engine and fixed in /repo",
     },
+    "C15": {
+        "engines": [{"name": "node", "quick": 42, "thorough": 210, "oracle_tag": "C15"}],
+        "constants": ["INITIAL_TIMEOUT_ns", "NODE_TIMEOUT_ns", "NO_NETWORK_TIMEOUT_ns", "PERIODIC_CHECK_TIMEOUT_ns", "GOOD_NODE_THRESHOLD", "MAX_INITIAL_RESPONSES", "BOOTSTRAP_RETRY_BASE", "BOOTSTRAP_RETRY_MAX_EXP", "BOOTSTRAP_THROTTLE_AFTER"],
+        "trusted": NODE_TRUST,
+        "assumptions": [],
+        "level_note": "PARTIAL: proved for every run of the node model — no contacts: Bootstrapped in the starting step and the worker never attempts anything; with contacts: no Bootstrapped publication, no handled completion and no returning bootstrapped() before a contact's response was accepted; every waiter resolved in the step of the completion, nobody left waiting while bootstrapped, immediate return while bootstrapped; API commands always answered; first-round contacts pairwise distinct (the F15 assertion is unreachable). Not proved in Lean — the timed clause (resolution within about 11 minutes of a contact becoming responsive after any outage pattern): decided by the [C15] oracle of the node engine on outage/flapping scenarios against the real node (tie). Finding F15 demonstrated by the node engine and fixed in /repo",
+    },
 }
